@@ -39,6 +39,9 @@ type C08Case struct {
 	// block outside the range is being skipped over must be reported like any other
 	From int `json:"from,omitempty"`
 	To   int `json:"to,omitempty"`
+	// SrcSizes: sizes of the pieces the source delivers (last repeats; empty = fills every request). With short
+	// pieces the input bitstream tops a refill up with further reads, each of which is a call that can fail
+	SrcSizes []int `json:"src_sizes,omitempty"`
 }
 
 // c08NewWriter builds the Writer of a scenario over sink.
@@ -119,6 +122,7 @@ func c08Prepare(c C08Case) (*c08Pre, string) {
 	p.stream = sink.Data
 	p.sinkWrites, p.sinkCloses = sink.Writes, sink.Closes
 	src := fio.NewSource(p.stream)
+	src.Sizes = c.SrcSizes
 	rd, err := c08NewReader(src, c)
 	if err != nil {
 		return nil, "fault-free reader construction failed: " + err.Error()
@@ -223,7 +227,7 @@ func c08Writer(c C08Case, p *c08Pre, k, k2 int) (msg string, fired bool) {
 
 // c08Reader runs the reader scenario with a failing source.
 func c08Reader(c C08Case, p *c08Pre, k, k2 int) (msg string, fired bool) {
-	src := &fio.Source{Data: p.stream, FailRead: map[int]bool{k: true}, Sticky: c.Sticky, WithData: c.WithData}
+	src := &fio.Source{Data: p.stream, FailRead: map[int]bool{k: true}, Sticky: c.Sticky, WithData: c.WithData, Sizes: c.SrcSizes}
 	if k2 > 0 {
 		src.FailRead[k2] = true
 	}
@@ -359,6 +363,19 @@ func drawC08(t *rapid.T) C08Case {
 		c.BufSize = rapid.SampledFrom([]int{1024, 1024, 1032, 2048, 4096, 16384}).Draw(t, "bufSize")
 		c.Data.Len = rapid.OneOf(rapid.IntRange(0, 3*c.BufSize), rapid.IntRange(0, 40*c.BufSize)).Draw(t, "lenSmallBuf")
 	}
+	if c.Side == "source-read" && rapid.IntRange(0, 2).Draw(t, "pieces") == 0 {
+		// a source that delivers short pieces (pipes, sockets): sizes that are not multiples of 8 make the input
+		// bitstream issue continuation reads; data kept small because every underlying call gets its own fault run
+		c.SrcSizes = rapid.SliceOfN(rapid.SampledFrom([]int{1, 3, 7, 13, 64, 100, 1021, 1024, 4099}), 1, 3).Draw(t, "srcSizes")
+		mn := c.SrcSizes[0]
+		for _, v := range c.SrcSizes {
+			mn = min(mn, v)
+		}
+		c.Data.Len = min(c.Data.Len, 250*mn)
+		if c.Data.Kind == gen.KRuns {
+			c.Data.Kind = gen.KRandom // keep the stream about as long as the data
+		}
+	}
 	if ranged {
 		// a block range over a stream of several small blocks read through a small bitstream buffer, so that
 		// refills (and the injected failure) fall inside blocks before, inside and after the range
@@ -377,6 +394,13 @@ func drawC08(t *rapid.T) C08Case {
 			c.To = 0
 		}
 		c.WriteSizes = nil
+	}
+	if len(c.SrcSizes) > 0 {
+		mn := c.SrcSizes[0]
+		for _, v := range c.SrcSizes {
+			mn = min(mn, v)
+		}
+		c.Data.Len = min(c.Data.Len, 250*mn) // at most ~250 underlying reads per scenario
 	}
 	return c
 }
